@@ -13,7 +13,7 @@ func init() {
 		ID:    "C11",
 		Title: "Registration state equals what a fresh container with the same content has",
 		Decided: "C11.a the container's registration state (service list, mux, root flag) is written only by constructors on fresh objects, package init, Add and Remove, the latter two under the write lock, and Remove's success path replaces all of it; C11.b Add scans for a duplicate root before it registers on the mux and appends, exits only on root-path equality, and appends after the mux registration; " +
-			"C11.c every mux registration made for a WebService is suppressed only by an equality on the very key that is registered (or a normalisation of it), computed the same way on both sides, never by a partial match or by a key from before a truncating step; C11.d the rebuild in Remove never asks the membership scan about an element of the list it is still holding; C11.e every kind of registration made on the container's mux is replayed by Remove's rebuild.",
+			"C11.c every mux registration made for a WebService is suppressed only by an equality on the very key that is registered (or a normalisation of it), computed the same way on both sides, never by a partial match or by a key from before a truncating step; C11.d the rebuild in Remove never asks the membership scan about an element of the list it is still holding; C11.e every kind of registration made on the container's mux is replayed by Remove's rebuild. C11.i every request-path lock is released on all exits, also when user code under it panics (= C10.c); C11.j a computed mux pattern is registered only where the value it is trimmed from was tested against \"\" and \"/\"; C11.k both operands of a registration-time string equality went through the same rewriting functions.",
 		NotDecided: "equality of responses between the edited and the fresh container (behavioural); agreement of Dispatch and ServeHTTP beyond the mux registrations; RemoveRoute's choice of routes (value-level).",
 		Rules: []Rule{
 			{ID: "C11.a", Template: "T-OWN", Required: true, Run: ruleC11a,
